@@ -152,8 +152,10 @@ def cmd_unit(args):
                          len(r.obligations) - len(real), r.wall, r.reason[:3000]))
                 if r.status == 'undecided':
                     rc = max(rc, 2)
+                shown = 0
                 for o in real:
-                    if o['status'] != 'SUCCESS' or args.verbose:
+                    if (o['status'] == 'FAILURE' and shown < 15) or args.verbose:
+                        shown += 1
                         print('   %-8s %s  [%s] %s (%s:%s)' % (o['status'], o['name'], o['cls'], o['desc'], o['file'], o['line']))
                 if r.status == 'fail':
                     rc = max(rc, 1)
